@@ -12,7 +12,7 @@ for i in ids:
     title=next((l.strip('# ').strip() for l in readme.splitlines() if l.strip()), '')
     m.setdefault('id', i); m['property']=prop
     m.setdefault('what', title[:300])
-    k=int(i.split('-')[1]); log=f'/tmp/seedout/{prop}/{k}.confirm.log' if k<=2 else f'/tmp/seed2.out/{prop}/{k-2}.confirm.log'
+    k=int(i.split('-')[1]); rnd=(k-1)//2+1; log=f'/tmp/seed{rnd if rnd>1 else ""}.out/{prop}/{(k-1)%2+1}.confirm.log'
     if os.path.exists(log):
         res=[l for l in open(log) if l.startswith('RESULT')]
         if res: m['confirmed']=res[-1].strip()
